@@ -1066,7 +1066,7 @@ static void gen(rng &r, const std::string &tier)
             const unsigned long KM = th || nth == 0 ? K300 : 3000, KM2 = th ? K300 : 3000, KE = th || nth < 2 ? K300 : 3000;
             nth++;
             lng(k, {{"0", KM}, {"1", 1}, {".", 1}, {"5", 1}});                          // zeros before the point
-            lng(k, {{"-", 1}, {"0", 1}, {".", 1}, {"0", KM2}, {"1", 1}});               // ... behind the point: d = -(KM2+1), underflow to -0
+            lng(k, {{"-", 1}, {"0", 1}, {".", 1}, {"0", nth == 1 ? K300 : KM2}, {"1", 1}}); // ... behind the point: d = -(n+1) (int d counts down 300 Ki times), underflow to -0
             lng(k, {{"0", 1}, {".", 1}, {"0", KM2}});                                   // zero with a long fraction
             lng(k, {{"1", 1}, {"e", 1}, {"0", KE}, {"5", 1}, {"x", 1}});                // leading zeros in the exponent
             lng(k, {{"1", 1}, {"e", 1}, {"-", 1}, {"9", th || nth == 1 ? KE : 5}});     // exponent far beyond long long: saturates, 0 (10^6 scaling steps)
